@@ -59,6 +59,8 @@ class RunInfo:
         storage: str | dict[OUTPUT_TYPE, str],
         cleanup: bool = True,
     ) -> RunInfo:
+        for storage_id in [storage] if isinstance(storage, str) else storage.values():
+            get_storage_class(storage_id)  # raise for unknown storage before anything is written
         run_folder = _maybe_run_folder(run_folder, storage)
         if run_folder is not None:
             if cleanup:
